@@ -23,21 +23,23 @@ def fake_create_db(gtf, db, force=True, **kw):
     if os.path.exists(db):
         os.remove(db)
     mt = os.path.getmtime(gtf)
+    # a conversion with gene/transcript inference (no --complete_genedb) is another database than one without
+    complete = bool(kw.get("disable_infer_genes", True))
     with open(db, "w") as f:
-        f.write("db-from:%s@%s" % (gtf, mt))
+        f.write("db-from:%s@%s%s" % (gtf, mt, "" if complete else ":inferred"))
 
 
-def make_process(pid, gtf, outdir, clean_start=False, with_mapper_caches=False):
+def make_process(pid, gtf, outdir, clean_start=False, with_mapper_caches=False, complete=True):
     def body(sched):
         import isoquant
         import src.gtf2db as G
-        args = SimpleNamespace(clean_start=clean_start, complete_genedb=True, gtf_check=False, genedb=gtf, output=outdir,
+        args = SimpleNamespace(clean_start=clean_start, complete_genedb=complete, gtf_check=False, genedb=gtf, output=outdir,
                                genedb_filename=os.path.join(outdir, os.path.splitext(os.path.basename(gtf))[0] + ".db"))
         isoquant.set_configs_directory(args)
         g, db = G.convert_db(os.path.abspath(gtf), args.genedb_filename, G.gtf2db, args)
         with open(db, "r") as f:
             content = f.read()
-        res = {"gtf": g, "db": db, "db_content": content, "gtf_mtime": os.path.getmtime(gtf)}
+        res = {"gtf": g, "db": db, "db_content": content, "gtf_mtime": os.path.getmtime(gtf), "complete": complete}
         if with_mapper_caches:
             import src.read_mapper as RM
             args.reference = V + "data/ref%d.fa" % pid
@@ -92,6 +94,18 @@ def scenario(name):
         return [(1, g(1), o(1), True, False), (2, g(1), o(2), False, False)], lambda v: base_init(v, populated=[1])
     if name == "mapper-caches":
         return [(1, g(1), o(1), False, True), (2, g(2), o(2), False, True)], lambda v: base_init(v, populated=[1, 2])
+    if name == "same-gtf-different-completeness":
+        # the same annotation converted with and without --complete_genedb: each run must use a conversion made with its own setting
+        return [(1, g(1), o(1), False, False, False), (2, g(1), o(2), False, False, True)], lambda v: base_init(v)
+    if name == "inferred-cached-vs-complete":
+        def init(v):
+            base_init(v, populated=[1])
+            ent = json.loads(v.files[CFG + "/db_config.json"].content)
+            ent[g(1)]["complete_db"] = False
+            v.files[CFG + "/db_config.json"].content = json.dumps(ent)
+            v.files[V + "old/annot1.db"].content += ":inferred"
+            v.files[V + "old/annot1.db"].committed.add(v.files[V + "old/annot1.db"].content)
+        return [(1, g(1), o(1), False, False, True), (2, g(1), o(2), False, False, False)], init
     if name == "three-processes":
         return [(1, g(1), o(1), False, False), (2, g(2), o(2), False, False), (3, g(3), o(3), False, False)], lambda v: base_init(v, cfg_exists=True)
     if name == "three-fresh":
@@ -102,13 +116,14 @@ def scenario(name):
 def make_check(specs):
     def check(s):
         out = []
-        for i, (pid, gtf, outdir, clean, mapper) in enumerate(specs):
+        for i, sp in enumerate(specs):
+            pid, gtf, outdir, clean, mapper = sp[:5]
             e = s.errors[i]
             if e is not None:
                 out.append(("process-failed:%s" % type(e).__name__, "process %d (%s) died with %r" % (pid, os.path.basename(gtf), e)))
                 continue
             r = s.results[i]
-            exp = "db-from:%s@%s" % (gtf, r["gtf_mtime"])
+            exp = "db-from:%s@%s%s" % (gtf, r["gtf_mtime"], "" if r.get("complete", True) else ":inferred")
             if r["db_content"] != exp:
                 out.append(("foreign-or-partial-db", "process %d uses %s whose content is %r, expected a conversion of its own input %r" %
                             (pid, r["db"], r["db_content"], exp)))
@@ -151,7 +166,8 @@ def run_scenario(args):
 def run(ctx):
     quick = ctx.tier == "quick"
     jobs = []
-    two = ["fresh-home-different-gtf", "fresh-home-same-gtf", "existing-config-different-gtf", "cache-hit-vs-miss", "clean-start-vs-hit"]
+    two = ["fresh-home-different-gtf", "fresh-home-same-gtf", "existing-config-different-gtf", "cache-hit-vs-miss", "clean-start-vs-hit",
+           "same-gtf-different-completeness", "inferred-cached-vs-complete"]
     # thorough: bound 4 needs ~3 min per fresh-home scenario (5*10^4 executions, 3*10^5 states); unbounded exploration of the
     # fresh-home scenarios did not finish within 50 minutes and is therefore not claimed
     for n in two:
